@@ -32,6 +32,7 @@ type fwFaceInfo struct {
 }
 
 type mIn struct {
+	optional     bool     // the model is not sure the forwarder recorded this Interest (never a required copy)
 	tokens       [][]byte // tokens this face supplied (first one first)
 	nonce        uint32
 	expLo, expHi time.Time
@@ -44,16 +45,16 @@ type mOut struct {
 }
 
 type mEntry struct {
-	key      string
-	name     enc.Name
-	cbp, mbf bool
-	hint     enc.Name
-	in       map[uint64]*mIn
-	out      map[uint64]*mOut
-	token    string // learned forwarder token (hex), "" unknown
-	fresh    bool   // no Interest of this entry has been forwarded / recorded before (first Interest)
-	maybe    bool   // implementation may already have dropped this entry (reaped inside a guard band)
-	tokenStale bool // the learned token may belong to an entry instance the forwarder has already dropped
+	key        string
+	name       enc.Name
+	cbp, mbf   bool
+	hint       enc.Name
+	in         map[uint64]*mIn
+	out        map[uint64]*mOut
+	token      string // learned forwarder token (hex), "" unknown
+	fresh      bool   // no Interest of this entry has been forwarded / recorded before (first Interest)
+	maybe      bool   // implementation may already have dropped this entry (reaped inside a guard band)
+	tokenStale bool   // the learned token may belong to an entry instance the forwarder has already dropped
 }
 
 type fwModel struct {
